@@ -324,7 +324,52 @@ func c07BuildPool(verifSeed int64) []*sbom.Document {
 		d.NodeList.Edges = append(d.NodeList.Edges, &sbom.Edge{})
 		d.NodeList.Nodes = append(d.NodeList.Nodes, &sbom.Node{})
 	})
+	// large documents (beyond any plausible "small input" threshold of a driver), the first with every
+	// identifier used by two nodes that carry different data, far apart in the list
+	c07BigStart = len(pool)
+	pool = append(pool, c07BigDoc(r, 700, true), c07BigDoc(r, 1300, false), c07BigDoc(r, 4200, true))
 	return pool
+}
+
+var c07BigStart int
+
+func c07BigDoc(r *rand.Rand, n int, dup bool) *sbom.Document {
+	d := sbom.NewDocument()
+	d.Metadata.Id = fmt.Sprintf("urn:uuid:22222222-0000-4000-8000-%012d", n)
+	d.Metadata.Name = fmt.Sprintf("big-%d", n)
+	root := &sbom.Node{Id: "big-root", Name: "root", Version: "1", Type: sbom.Node_PACKAGE}
+	d.NodeList.Nodes = append(d.NodeList.Nodes, root)
+	d.NodeList.RootElements = []string{"big-root"}
+	distinct := n
+	if dup {
+		distinct = n / 2
+	}
+	contains := &sbom.Edge{Type: sbom.Edge_contains, From: "big-root"}
+	depends := &sbom.Edge{Type: sbom.Edge_dependsOn, From: "big-root"}
+	for i := 0; i < n; i++ {
+		id := fmt.Sprintf("n%05d", i%distinct)
+		nd := &sbom.Node{Id: id, Name: fmt.Sprintf("pkg-%d-of-%s", i, id), Version: fmt.Sprintf("%d.%d", i/distinct, i%97), Type: sbom.Node_PACKAGE,
+			Description: fmt.Sprintf("occurrence %d", i/distinct), Licenses: []string{"MIT"},
+			Identifiers: map[int32]string{int32(sbom.SoftwareIdentifierType_PURL): fmt.Sprintf("pkg:generic/p%d@%d", i, i/distinct)},
+			Hashes:      map[int32]string{int32(sbom.HashAlgorithm_SHA256): fmt.Sprintf("%064x", i)}}
+		if i%5 == 0 {
+			nd.Type = sbom.Node_FILE
+		}
+		d.NodeList.Nodes = append(d.NodeList.Nodes, nd)
+		if i < distinct {
+			if i%3 == 0 {
+				depends.To = append(depends.To, id)
+			} else {
+				contains.To = append(contains.To, id)
+			}
+		}
+	}
+	d.NodeList.Edges = append(d.NodeList.Edges, contains, depends)
+	for i := 0; i+1 < distinct; i += 7 {
+		d.NodeList.Edges = append(d.NodeList.Edges, &sbom.Edge{Type: sbom.Edge_dependsOn, From: fmt.Sprintf("n%05d", i), To: []string{fmt.Sprintf("n%05d", i+1)}})
+	}
+	_ = r
+	return d
 }
 
 func genC07(verifSeed int64, tier string, idx int) *core.Scenario {
@@ -382,6 +427,16 @@ func genC07(verifSeed int64, tier string, idx int) *core.Scenario {
 		sc.Sched = verifsim.Config{Seed: seed, Policy: "serial", MaxSteps: 3000000, MapOrder: "random"}
 	} else {
 		sc.Sched = genSched(r, seed)
+	}
+	for pi := range used {
+		if pi >= c07BigStart {
+			// a large document: whatever goroutines a driver starts for it are interleaved at random, and the budget is larger
+			if sc.Sched.Policy == "serial" {
+				sc.Sched = genSched(r, seed)
+			}
+			sc.Sched.MaxSteps = 2000000000
+			break
+		}
 	}
 	if r.Intn(4) == 0 {
 		sc.Sched.MapOrder = "sorted"
